@@ -96,6 +96,7 @@ allowPorts = [{start=23900,end=23999}]
 		}
 	})
 	run.ParallelRange(100000, run.N(24, 640), 8, handoffCase)
+	run.ParallelRange(200000, run.N(12, 240), 6, rejoinCase)
 	srv.Close()
 	srvAuto.Close()
 	run.Finish(30)
@@ -109,6 +110,15 @@ type member struct {
 	peer *h.Peer
 	name string // proxy name
 	in   bool
+	gen  *atomic.Int64 // registration generation (http members answer with the generation their work connection was started in)
+}
+
+// ident is what a probe must be answered with when this member serves it.
+func (m *member) ident(kind string) string {
+	if kind == "http" {
+		return fmt.Sprintf("%s|%s|g%d", m.id, m.name, m.gen.Load())
+	}
+	return m.id + "|" + m.name
 }
 
 type group struct {
@@ -243,9 +253,10 @@ func (g *group) newProxyMsg(pname, key string, diffEndpoint bool) *msg.NewProxy 
 
 func dialMember(g *group, n int) (*member, error) {
 	id := fmt.Sprintf("S%d", n)
+	gen := &atomic.Int64{}
 	var wh func(p *h.Peer, wc *h.WorkConn)
 	if g.kind == "http" {
-		wh = httpMember(id)
+		wh = httpMember(id, gen)
 	} else {
 		wh = h.IdentBackend(id, token, false, false, nil)
 	}
@@ -256,13 +267,16 @@ func dialMember(g *group, n int) (*member, error) {
 		}
 		return nil, fmt.Errorf("login: %v", err)
 	}
-	return &member{id: id, peer: p, name: fmt.Sprintf("%sm%d", strings.TrimSuffix(g.name, "g"), n)}, nil
+	return &member{id: id, peer: p, name: fmt.Sprintf("%sm%d", strings.TrimSuffix(g.name, "g"), n), gen: gen}, nil
 }
 
 // httpMember serves HTTP on the work connection, answering with the member identity.
-func httpMember(id string) func(p *h.Peer, wc *h.WorkConn) {
+func httpMember(id string, gen *atomic.Int64) func(p *h.Peer, wc *h.WorkConn) {
 	return func(p *h.Peer, wc *h.WorkConn) {
 		defer wc.Conn.Close()
+		// the generation this work connection was started in: a connection kept from an earlier registration of
+		// the same name (the member left and joined again) identifies itself as stale
+		g0 := gen.Load()
 		br := bufio.NewReader(wc.Conn)
 		for {
 			req, err := http.ReadRequest(br)
@@ -270,7 +284,7 @@ func httpMember(id string) func(p *h.Peer, wc *h.WorkConn) {
 				return
 			}
 			_, _ = io.Copy(io.Discard, req.Body)
-			body := id + "|" + wc.Start.ProxyName
+			body := fmt.Sprintf("%s|%s|g%d", id, wc.Start.ProxyName, g0)
 			_, err = fmt.Fprintf(wc.Conn, "HTTP/1.1 200 OK\r\nContent-Length: %d\r\nContent-Type: text/plain\r\n\r\n%s", len(body), body)
 			if err != nil {
 				return
@@ -413,7 +427,7 @@ func (g *group) ledger(when string, live []*member) {
 	// hand-off: 2*len(live)+1 sequential probes must each be answered by exactly one live member
 	want := map[string]bool{}
 	for _, m := range live {
-		want[m.id+"|"+m.name] = true
+		want[m.ident(g.kind)] = true
 	}
 	var seq []string
 	for i := 0; i < 2*len(live)+1; i++ {
@@ -459,6 +473,7 @@ func keys(m map[string]bool) []string {
 }
 
 func (g *group) join(m *member, key string, diffEndpoint bool) (*msg.NewProxyResp, error) {
+	m.gen.Add(1) // work connections started from now on belong to this registration
 	resp, err := m.peer.NewProxy(g.newProxyMsg(m.name, key, diffEndpoint), 15*time.Second)
 	if err == nil && resp.Error == "" {
 		m.in = true
@@ -536,6 +551,10 @@ func historyCase(c *h.Case) {
 			step = "drop"
 		default:
 			step = []string{"join", "join", "join", "join-wrong-key", "join-other-endpoint"}[rng.Intn(5)]
+			if (g.kind == "http" || g.kind == "tcpmux") && len(live) > 0 && rng.Intn(6) == 0 {
+				// same endpoint, other credentials (or credentials where the group has none, or none where it has some)
+				step = "join-other-credentials"
+			}
 			if (g.kind == "http" || g.kind == "tcpmux") && rng.Intn(5) == 0 {
 				// a proxy with two domains: the first one is the group's endpoint (that part of the registration
 				// succeeds), the second one is not — the registration is refused as a whole and must leave nothing
@@ -573,6 +592,27 @@ func historyCase(c *h.Case) {
 					firstPort = g.real
 				}
 			}
+		case "join-other-credentials":
+			pm := g.newProxyMsg(m.name, g.key, false)
+			switch {
+			case pm.HTTPUser == "" && pm.HTTPPwd == "":
+				pm.HTTPUser, pm.HTTPPwd = "joiner", "Pw-Joiner1"
+			case rng.Intn(2) == 0:
+				pm.HTTPUser, pm.HTTPPwd = "", ""
+			default:
+				pm.HTTPPwd += "-other"
+			}
+			resp, err := m.peer.NewProxy(pm, 15*time.Second)
+			if err != nil {
+				c.Violation("group-join-no-reply", "%s: join got no reply: %v", g.kind, err)
+				return
+			}
+			run.Count("bad_joins_other_credentials", 1)
+			if resp.Error == "" {
+				c.Violation("group-join-accepted-other-credentials", "%s: a proxy with the group's key and endpoint but credentials %q:%q (the group's are %q:%q) was accepted into group %s", g.kind, pm.HTTPUser, pm.HTTPPwd, g.authUser, g.authPass, g.name)
+				return
+			}
+			m.in = false
 		case "join-second-domain":
 			pm := g.newProxyMsg(m.name, g.key, false)
 			pm.CustomDomains = append(pm.CustomDomains, "second."+g.domain)
@@ -848,4 +888,62 @@ func handoffCase(c *h.Case) {
 	g.ledger("after re-creation", []*member{b})
 	_ = g.leave(b)
 	run.Distinct(fmt.Sprintf("handoff|%s|%d", kind, c.Idx%16))
+}
+
+// ---------------------------------------------------------------------------------------------
+// 5. a member leaves a still-populated group by CloseProxy (its session stays up) and joins again under the same
+// name: from then on the requests handed to it must be served by the NEW registration — nothing that was kept
+// for the old one (an idle backend connection, a pooled work connection) may answer.
+
+func rejoinCase(c *h.Case) {
+	if wedged.Load() {
+		run.Inconclusive("a server wedged earlier in this run")
+		return
+	}
+	kind := []string{"http", "http", "tcpmux", "tcp-fixed"}[c.Idx%4]
+	g := newGroup(c, kind)
+	c.Data["kind"] = kind
+	a, err := dialMember(g, 1)
+	if err != nil {
+		run.Inconclusive("member login failed")
+		return
+	}
+	defer a.peer.Close()
+	b, err := dialMember(g, 2)
+	if err != nil {
+		run.Inconclusive("member login failed")
+		return
+	}
+	defer b.peer.Close()
+	for _, m := range []*member{a, b} {
+		if resp, err := g.join(m, g.key, false); err != nil || resp.Error != "" {
+			c.Violation("group-join-with-right-key-refused", "%s: member %s refused: %v %+v", kind, m.id, err, resp)
+			return
+		}
+	}
+	g.ledger("both joined", []*member{a, b}) // the probes leave idle kept-alive connections to both members
+	if c.Violations() > 0 {
+		return
+	}
+	rounds := 1 + c.Rng.Intn(2)
+	for r := 0; r < rounds; r++ {
+		if err := g.leave(a); err != nil {
+			run.Inconclusive("leave barrier missing")
+			return
+		}
+		g.ledger(fmt.Sprintf("round %d: a left, b stays", r), []*member{b})
+		if c.Violations() > 0 {
+			return
+		}
+		if resp, err := g.join(a, g.key, false); err != nil || resp.Error != "" {
+			c.Violation("group-join-with-right-key-refused", "%s: member %s refused when joining again: %v %+v", kind, a.id, err, resp)
+			return
+		}
+		run.Count("rejoins_into_populated_group", 1)
+		g.ledger(fmt.Sprintf("round %d: a joined again", r), []*member{a, b})
+		if c.Violations() > 0 {
+			return
+		}
+	}
+	run.Distinct(fmt.Sprintf("rejoin|%s|%d|%d", kind, rounds, c.Idx%20))
 }
